@@ -257,3 +257,18 @@ Proof.
   - destruct sk as [k|]; simpl; split; discriminate.
   - simpl. split; reflexivity.
 Qed.
+
+(* ---------- the local-socket test looks at the whole network name ---------- *)
+Theorem network_name_decides : forall c node suffix,
+  conn_is_unix (net_of c node suffix) = is_unix c.
+Proof. intros [| |] node suffix; reflexivity. Qed.
+
+Theorem contains_unix_refuted :
+  let node := [109; 117; 110; 105; 120; 49] (* "munix1" *) in
+  conn_is_unix (net_of Mesh node []) = false /\
+  conn_contains_unix (net_of Mesh node []) = true /\
+  ~ (forall c node suffix, conn_contains_unix (net_of c node suffix) = is_unix c).
+Proof.
+  split; [reflexivity|]. split; [reflexivity|].
+  intro H. specialize (H Mesh [109; 117; 110; 105; 120; 49] []). vm_compute in H. discriminate.
+Qed.
